@@ -4,7 +4,9 @@ import (
 	"fmt"
 	"go/types"
 	"math"
+	"net"
 	"net/textproto"
+	"net/url"
 	"strconv"
 	"strings"
 
@@ -104,6 +106,9 @@ func init() {
 	intrinsics[vrt+"IntRange"] = func(e *Engine, fr *frame, fn *ssa.Function, args []Value) Value {
 		t := e.newInput(cstr(args[0]), "int", 64)
 		lo, hi := e.asInt(args[1]), e.asInt(args[2])
+		if lo.IsConst() && hi.IsConst() && t.Op == OpVar {
+			e.ranges[t.Name] = [2]int64{lo.SVal(), hi.SVal()}
+		}
 		e.assume(e.st.And(e.st.Cmp(OpSLe, lo, t), e.st.Cmp(OpSLe, t, hi)))
 		return t
 	}
@@ -552,6 +557,60 @@ func init() {
 		return e.st.Bool(strings.EqualFold(cstr(args[0]), cstr(args[1])))
 	}
 
+	// ------------------------------------------------------------ bytealg primitives (assembly in the real runtime)
+	intrinsics["internal/bytealg.IndexByteString"] = func(e *Engine, fr *frame, fn *ssa.Function, args []Value) Value {
+		return e.st.Const(64, uint64(int64(e.strIndexBytes(args[0].(Str), []*Term{args[1].(*Term)}))))
+	}
+	intrinsics["internal/bytealg.IndexString"] = func(e *Engine, fr *frame, fn *ssa.Function, args []Value) Value {
+		return e.st.Const(64, uint64(int64(e.strIndex(args[0].(Str), args[1].(Str)))))
+	}
+	intrinsics["internal/bytealg.CountString"] = func(e *Engine, fr *frame, fn *ssa.Function, args []Value) Value {
+		n := 0
+		for _, b := range e.strBytes(args[0].(Str)) {
+			if e.branch(e.st.Eq(b, args[1].(*Term))) {
+				n++
+			}
+		}
+		return e.st.Const(64, uint64(n))
+	}
+	intrinsics["internal/bytealg.IndexByte"] = func(e *Engine, fr *frame, fn *ssa.Function, args []Value) Value {
+		sl := args[0].(Slice)
+		for i, v := range sl.V {
+			if e.branch(e.st.Eq(v.(*Term), args[1].(*Term))) {
+				return e.st.Const(64, uint64(i))
+			}
+		}
+		return e.st.Const(64, ^uint64(0))
+	}
+
+	// ------------------------------------------------------------ net
+	intrinsics["net.SplitHostPort"] = func(e *Engine, fr *frame, fn *ssa.Function, args []Value) Value {
+		s := args[0].(Str)
+		if !s.IsSym() {
+			h, p, err := net.SplitHostPort(s.S)
+			if err != nil {
+				return Tuple{Str{}, Str{}, e.newErrorIface("<net.SplitHostPort: " + err.Error() + ">")}
+			}
+			return Tuple{Str{S: h}, Str{S: p}, Iface{}}
+		}
+		return e.splitHostPortSym(s)
+	}
+
+	intrinsics["net/url.Parse"] = func(e *Engine, fr *frame, fn *ssa.Function, args []Value) Value {
+		u, err := url.Parse(cstr(args[0]))
+		if err != nil {
+			return Tuple{(*Value)(nil), e.newErrorIface("<url.Parse: " + err.Error() + ">")}
+		}
+		return Tuple{e.mkURL(u), Iface{}}
+	}
+	intrinsics["(*net/url.URL).String"] = func(e *Engine, fr *frame, fn *ssa.Function, args []Value) Value {
+		p := args[0].(*Value)
+		if p == nil {
+			panic(&goPanic{runtime: "invalid memory address or nil pointer dereference"})
+		}
+		return Str{S: e.urlOf(p).String()}
+	}
+
 	// ------------------------------------------------------------ logging: empty bodies
 	pkgIntrinsics["github.com/rs/zerolog"] = chain
 	pkgIntrinsics["github.com/rs/zerolog/log"] = chain
@@ -674,4 +733,109 @@ func (e *Engine) strIndexBytes(s Str, sep []*Term) int {
 		}
 	}
 	return -1
+}
+
+// splitHostPortSym models net.SplitHostPort on a symbolic string whose bytes
+// are restricted (by the harness) to the alphabet without '[' and ']': the
+// documented behaviour is then "split at the last colon; error if there is no
+// colon or more than one".
+func (e *Engine) splitHostPortSym(s Str) Value {
+	bs := s.Sym
+	for _, b := range bs {
+		if !b.IsConst() {
+			br := e.st.Or(e.st.Eq(b, e.st.Const(8, '[')), e.st.Eq(b, e.st.Const(8, ']')))
+			if e.branch(br) {
+				panic(unsupported("net.SplitHostPort on symbolic string containing brackets"))
+			}
+		} else if b.Val == '[' || b.Val == ']' {
+			panic(unsupported("net.SplitHostPort on symbolic string containing brackets"))
+		}
+	}
+	last := -1
+	count := 0
+	for i, b := range bs {
+		if e.branch(e.st.Eq(b, e.st.Const(8, ':'))) {
+			last = i
+			count++
+		}
+	}
+	if count == 0 {
+		return Tuple{Str{}, Str{}, e.newErrorIface("<net.SplitHostPort: missing port in address>")}
+	}
+	if count > 1 {
+		return Tuple{Str{}, Str{}, e.newErrorIface("<net.SplitHostPort: too many colons in address>")}
+	}
+	return Tuple{e.substr(s, 0, last), e.substr(s, last+1, len(bs)), Iface{}}
+}
+
+var urlFields = []string{"Scheme", "Opaque", "User", "Host", "Path", "RawPath", "OmitHost", "ForceQuery", "RawQuery", "Fragment", "RawFragment"}
+
+func (e *Engine) urlStruct() *types.Struct {
+	return e.P.ByPath["net/url"].Type("URL").Type().Underlying().(*types.Struct)
+}
+
+// mkURL builds the interpreter's representation of a *url.URL.
+func (e *Engine) mkURL(u *url.URL) *Value {
+	st := e.urlStruct()
+	s := make(Struct, st.NumFields())
+	for i := 0; i < st.NumFields(); i++ {
+		f := st.Field(i)
+		switch f.Name() {
+		case "Scheme":
+			s[i] = Str{S: u.Scheme}
+		case "Opaque":
+			s[i] = Str{S: u.Opaque}
+		case "Host":
+			s[i] = Str{S: u.Host}
+		case "Path":
+			s[i] = Str{S: u.Path}
+		case "RawPath":
+			s[i] = Str{S: u.RawPath}
+		case "RawQuery":
+			s[i] = Str{S: u.RawQuery}
+		case "Fragment":
+			s[i] = Str{S: u.Fragment}
+		case "RawFragment":
+			s[i] = Str{S: u.RawFragment}
+		case "OmitHost":
+			s[i] = e.st.Bool(u.OmitHost)
+		case "ForceQuery":
+			s[i] = e.st.Bool(u.ForceQuery)
+		default:
+			s[i] = e.zero(f.Type())
+		}
+	}
+	p := new(Value)
+	*p = s
+	return p
+}
+
+func (e *Engine) urlOf(p *Value) *url.URL {
+	st := e.urlStruct()
+	s := (*p).(Struct)
+	u := &url.URL{}
+	get := func(v Value) string {
+		x, ok := v.(Str)
+		if !ok || x.IsSym() {
+			return "<sym>"
+		}
+		return x.S
+	}
+	for i := 0; i < st.NumFields(); i++ {
+		switch st.Field(i).Name() {
+		case "Scheme":
+			u.Scheme = get(s[i])
+		case "Opaque":
+			u.Opaque = get(s[i])
+		case "Host":
+			u.Host = get(s[i])
+		case "Path":
+			u.Path = get(s[i])
+		case "RawQuery":
+			u.RawQuery = get(s[i])
+		case "Fragment":
+			u.Fragment = get(s[i])
+		}
+	}
+	return u
 }
